@@ -300,3 +300,25 @@ def run(ctx, rep):
         rep.instance(R2, ok=ok, nontrivial=f'{cls}.__getitem__')
         if not ok:
             rep.finding(R2, f'C15.R2/{cls}.__getitem__', m.loc(LEX, g_), f'{cls}.__getitem__', f'indexing / iteration no longer reads the {attr} in order')
+    # substitution, instantiation and negation rebuild sentences through the constructors, which answer from the item cache by
+    # equality of the arguments: "exactly the occurrences of the old parameter and nothing else" presupposes that two sentences
+    # are equal only when they are structurally identical.  The constructor fold of C14.R1 (sa.lexfold) is imported: every pair of
+    # distinct specs of each sentence class gets distinct comparison keys.
+    from .. import lexfold
+    R3 = rep.rule('C15.R3', 'the equality the rebuilt sentences are cached and compared by is structural: for each sentence class, constructor arguments that '
+                            'differ in any component (bound variable included) give different comparison keys (constructors folded; imported from C14.R1)')
+    res, cons = lexfold.fold_constructors(m)
+    rep.consult(*cons)
+    seen = set()
+    for ok, case, detail in res:
+        if not case.startswith(('Predicated', 'Quantified', 'Operated')):
+            continue
+        rep.instance(R3, ok=ok, nontrivial=case)
+        if not ok:
+            k = case.split(':')[0]
+            if k in seen:
+                continue
+            seen.add(k)
+            rep.finding(R3, f'C15.R3/constructors/{k}', cons[0].split(' ')[0] if cons else m.relfile(LEX), 'sentence constructors',
+                        f'{case}: {detail} -- a rebuilt sentence can come back from the cache as another sentence (e.g. with another bound variable)')
+    rep.floor('C15.R3', 'constructor pairs', sum(1 for _ok, c, _d in res if c.startswith(('Predicated', 'Quantified', 'Operated'))), 60)
